@@ -239,3 +239,87 @@ def interrupt_at_checkpoint(algorithm, at):
 
 def count_checkpoints(algorithm):
     _counter['n'] += 1
+
+
+# --------------------------------------------------------------------------------------------
+# observation-only instrumentation of the Simulation class (no change of behaviour): what
+# group_sites_for_algorithm / group_split did to psi.grouped and to the model, how many records the
+# results held at each COMPLETED save_results call, and the simulation object itself (final psi also
+# when save_psi=False).  A deterministic clock for `save_every_x_seconds`.
+# --------------------------------------------------------------------------------------------
+OBS = {'group': [], 'saves': [], 'sim': None}
+
+
+def reset_obs():
+    OBS['group'], OBS['saves'], OBS['sim'] = [], [], None
+
+
+def _n_records(sim):
+    m = sim.results.get('measurements') or {}
+    return max([len(v) for v in m.values()] + [0])
+
+
+def instrument():
+    from tenpy.simulations.simulation import Simulation
+    if getattr(Simulation, '_c18_instrumented', False):
+        return
+    o_group, o_split, o_save = Simulation.group_sites_for_algorithm, Simulation.group_split, Simulation.save_results
+
+    def group_sites_for_algorithm(self):
+        OBS['sim'] = self
+        ev = {'what': 'enter', 'loaded': bool(self.loaded_from_checkpoint), 'before': int(self.psi.grouped),
+              'L_model': int(self.model.lat.N_sites), 'L_psi': int(self.psi.L)}
+        try:
+            return o_group(self)
+        finally:
+            ev.update(gs=int(getattr(self, 'grouped', -1)), after=int(self.psi.grouped),
+                      L_model_after=int(self.model.lat.N_sites), L_psi_after=int(self.psi.L))
+            OBS['group'].append(ev)
+
+    def group_split(self):
+        ev = {'what': 'split', 'gs': int(self.grouped), 'before': int(self.psi.grouped)}
+        try:
+            return o_split(self)
+        finally:
+            ev.update(after=int(self.psi.grouped), sim_grouped=int(self.grouped), L_model_after=int(self.model.lat.N_sites),
+                      L_psi_after=int(self.psi.L))
+            OBS['group'].append(ev)
+
+    def save_results(self, results=None):
+        r = o_save(self, results)
+        OBS['saves'].append(_n_records(self) if results is None else -1)
+        return r
+
+    Simulation.group_sites_for_algorithm = group_sites_for_algorithm
+    Simulation.group_split = group_split
+    Simulation.save_results = save_results
+    Simulation._c18_instrumented = True
+
+
+class FakeClock:
+    """Stands in for the module `time` inside tenpy.simulations.simulation: every call of time() advances
+    the clock by `tick` seconds, so that `save_every_x_seconds` > 0 selects a deterministic subset of the
+    checkpoints (and exercises the adaptive increase of the option)."""
+
+    def __init__(self, tick):
+        import time as _time
+        self._time, self.tick, self.t = _time, float(tick), 1000.
+
+    def reset(self):
+        self.t = 1000.
+
+    def time(self):
+        self.t += self.tick
+        return self.t
+
+    def __getattr__(self, name):
+        return getattr(self._time, name)
+
+
+def install_clock(tick):
+    import tenpy.simulations.simulation as S
+    if not isinstance(S.time, FakeClock):
+        S.time = FakeClock(tick)
+    S.time.tick = float(tick)
+    S.time.reset()
+    return S.time
